@@ -180,3 +180,40 @@ Qed.
 
 Theorem law_slice_all d t : ixok d = true -> tbl d = Some t -> tbl (DSlice (seq 0 (length t)) d) = Some t.
 Proof. intros I T. cbn [tbl]. rewrite I, T. cbn [obind]. apply select_seq. Qed.
+
+(* ------------------------------------------------------------------------------------------ *)
+(* 6. unbatch distributes over concatenation (generic: every stage whose reference is a monoid homomorphism on tables) *)
+Lemma concat_hom_gen (U : tab -> option tab)
+  (HUapp : forall a b, U (a ++ b) = obind (U a) (fun a' => option_map (app a') (U b)))
+  (HU0 : U [] = Some []) {A} (T : A -> option tab) l :
+  obind (option_map (@concat _) (omapM T l)) U
+  = option_map (@concat _) (omapM (fun x => obind (T x) U) l).
+Proof.
+  induction l as [|d l IH]; [cbn; exact HU0|].
+  rewrite !omapM_cons.
+  destruct (T d) as [t|]; cbn [obind option_map]; [|reflexivity].
+  destruct (omapM T l) as [ts|]; cbn [obind option_map] in *.
+  - cbn [concat]. rewrite HUapp. destruct (U t); cbn [obind option_map]; [|reflexivity].
+    rewrite IH. destruct (omapM _ l); reflexivity.
+  - destruct (U t); cbn [obind option_map]; [|reflexivity].
+    destruct (omapM _ l); cbn [obind option_map] in *; [discriminate|reflexivity].
+Qed.
+
+Definition unbatch_rows (t : tab) : option tab :=
+  option_map (fun bs => nokey (concat bs)) (omapM seq_elems (vals t)).
+
+Lemma unbatch_rows_app a b :
+  unbatch_rows (a ++ b) = obind (unbatch_rows a) (fun a' => option_map (app a') (unbatch_rows b)).
+Proof.
+  unfold unbatch_rows, vals, nokey. rewrite map_app, omapM_app.
+  destruct (omapM seq_elems (map snd a)) as [ra|]; cbn [obind option_map]; [|reflexivity].
+  destruct (omapM seq_elems (map snd b)) as [rb|]; cbn [obind option_map]; [|reflexivity].
+  rewrite concat_app, map_app. reflexivity.
+Qed.
+
+Theorem law_unbatch_concat l : tbl (DUnbatch (DConcat l)) = tbl (DConcat (map DUnbatch l)).
+Proof.
+  change (obind (option_map (@concat _) (omapM tbl l)) unbatch_rows
+          = option_map (@concat _) (omapM tbl (map DUnbatch l))).
+  rewrite omapM_map. apply (concat_hom_gen unbatch_rows unbatch_rows_app eq_refl).
+Qed.
